@@ -54,12 +54,22 @@ DELAUNAY = {
            [1.25, 0.25], [-0.75, 0.25]],
     "D12": [[1.5, -1.0], [1.0, 1.25], [0.25, 0.125], [-1.0, -1.5], [-1.25, 1.0], [-0.25, -0.375], [0.5, -0.25],
             [1.25, 0.25], [-0.75, 0.25], [0.5, 0.875], [-0.5, -0.875], [0.125, 1.0]],
+    # hub: a centre vertex with a ring of 10 vertices (degree 10 - wider neighbour table than any other set)
+    "H10": [[0.0625, -0.03125], [0.0, 1.0], [0.6875, 0.8125], [1.0625, 0.4375], [0.9375, -0.375], [0.5625, -0.9375], [0.125, -1.0],
+            [-0.6875, -0.875], [-1.0, -0.375], [-0.9375, 0.375], [-0.6875, 0.875]],
+    # NOT in general position: a 2x3 lattice (two exactly co-circular quadruples, collinear rows) plus three irregular vertices
+    "L9": [[0.5, -1.0], [0.5, 0.0], [0.5, 1.0], [-0.5, -1.0], [-0.5, 0.0], [-0.5, 1.0], [1.375, 0.3125], [-1.25, -0.4375], [0.125, 1.8125]],
 }
+# sets with co-circular vertices: the triangulation is not unique, the neighbouring pairs are the edges of the triangulation the library
+# itself holds (mesh_grid.delaunay.simplices - the scipy object the mapper interpolates over); for all other sets the reference
+# triangulation is computed here independently
+DEGENERATE = {"L9"}
 
 BOUNDS = {
     "quick": "ENUMERATED: neighbour tables produced by the repository's own mesh code for rectangular meshes 3x3, 3x4, 4x3, 4x4, 3x5, 5x5 and "
-             "Delaunay vertex sets D5, D6, D7, D9 (5-9 vertices), plus EVERY symmetric neighbour table on 2, 3, 4 pixels (adjacency bits forked); "
-             "scheme classes observed through real mappers (3x3 image grid) on 3x3, 3x4, D5, D7 and through linear function lists with 1, 2, 3, 5 "
+             "Delaunay vertex sets D5, D6, D7, D9 (5-9 vertices), H10 (hub vertex of degree 10) and L9 (2x3 lattice with co-circular quadruples + 3 "
+             "irregular vertices; reference pairs = edges of the library's own triangulation), plus EVERY symmetric neighbour table on 2, 3, 4 pixels (adjacency bits forked); "
+             "scheme classes observed through real mappers (3x3 image grid) on 3x3, 3x4, D5, D7, H10, L9 and through linear function lists with 1, 2, 3, 5 "
              "parameters; split-cross tables of the D5, D6 mappers; every sequence of <= 3 linear objects over {regularized 2x2, unregularized 1, "
              "unregularized 2} plus 9 sequences containing a real rectangular mapper / function list. "
              "SYMBOLIC (solver variables): all coefficients (> 0), kernel-level per-pixel weights (>= 0), the adapt-data image (> 0), the signal "
@@ -192,11 +202,26 @@ def _delaunay_pairs(points):
     return sorted(pairs)
 
 
+def _library_triangulation_pairs(mesh):
+    key = ("libtri", tuple(mesh))
+    if key not in _CACHE:
+        with _Native():
+            mg = mesh_grid_from(mesh)
+            pairs = set()
+            for simplex in np.asarray(mg.delaunay.simplices):
+                for a, b in itertools.combinations(sorted(int(v) for v in simplex), 2):
+                    pairs.add((a, b))
+            _CACHE[key] = sorted(pairs)
+    return _CACHE[key]
+
+
 def mesh_reference(mesh):
     """independent of the repository: parameter count and the set of neighbouring pairs"""
     if mesh[0] == "rect":
         return mesh[1] * mesh[2], _rect_pairs(mesh[1], mesh[2])
     if mesh[0] == "del":
+        if mesh[1] in DEGENERATE:
+            return len(DELAUNAY[mesh[1]]), _library_triangulation_pairs(mesh)
         return len(DELAUNAY[mesh[1]]), _delaunay_pairs(DELAUNAY[mesh[1]])
     if mesh[0] == "chain":          # linear function list: parameter i neighbours i-1 and i+1
         return mesh[1], [(i, i + 1) for i in range(mesh[1] - 1)]
@@ -1026,7 +1051,7 @@ def cases(tier):
     rects = [(3, 3), (3, 4), (4, 3), (4, 4), (3, 5), (5, 5)] + ([] if q else [(4, 5), (5, 3), (6, 6), (5, 7), (7, 7), (8, 8)])
     dels = ["D5", "D6", "D7", "D9"] + ([] if q else ["D12"])
     pd_cap = 9 if q else 12
-    meshes = [["rect", h, w] for h, w in rects] + [["del", d] for d in dels]
+    meshes = [["rect", h, w] for h, w in rects] + [["del", d] for d in dels + ["H10", "L9"]]
     slow = {"timeout_ms": 900000}       # the 12-unknown definiteness queries need ~5 s each on an idle core; the machine is shared
 
     def pd_ok(m):
@@ -1038,7 +1063,7 @@ def cases(tier):
     for n in ([2, 3, 4] if q else [2, 3, 4, 5]):
         out.append(("case_kernels", {"mesh": ["graph", n], "pd": True}, {"split": {2: 0, 3: 0, 4: 3, 5: 5}[n]}))
     # scheme classes on real mappers
-    cmeshes = [["rect", 3, 3], ["rect", 3, 4], ["del", "D5"], ["del", "D7"]] + ([] if q else [["rect", 4, 4], ["rect", 4, 3], ["rect", 5, 5],
+    cmeshes = [["rect", 3, 3], ["rect", 3, 4], ["del", "D5"], ["del", "D7"], ["del", "H10"], ["del", "L9"]] + ([] if q else [["rect", 4, 4], ["rect", 4, 3], ["rect", 5, 5],
                                                                                             ["del", "D6"], ["del", "D9"], ["del", "D12"]])
     for m in cmeshes:
         n = mesh_reference(m)[0]
@@ -1050,7 +1075,7 @@ def cases(tier):
             for ss in (1, 2, "sym"):
                 for img in ([3] if q else [3, 4]):
                     out.append(("case_scheme", {"mesh": m, "scheme": scheme, "sscale": ss, "img": img}))
-        if m[0] == "del":
+        if m[0] == "del" and m[1] not in ("H10", "L9"):
             out.append(("case_scheme", {"mesh": m, "scheme": "ConstantSplit", "sscale": 1}))
             for ss in (1, "sym"):
                 out.append(("case_scheme", {"mesh": m, "scheme": "AdaptiveBrightnessSplit", "sscale": ss}))
